@@ -660,7 +660,7 @@ func runC29(r *simkit.R) {
 	w := newObjWorld(r, worldCfg{epoch: uint64(10 + r.Intn(4)), withEngine: !r.Bool(20)})
 	e0 := w.epoch()
 	online := []bool{true, true, true, true, true}
-	for e := e0 - 2; e <= e0+14; e++ {
+	for e := e0 - 2; e <= e0+26; e++ { // (<= 12 steps, each may move the epoch by <= 2)
 		w.chain.setEpochMembership(e, online, c29Members)
 	}
 	for i, b := range c29Basic {
